@@ -114,6 +114,22 @@ func EnumPaths(start *ssa.BasicBlock, from *ssa.BasicBlock, isEnd func(ssa.Instr
 					if old, seen := truth[rv]; seen && old != w {
 						return // contradictory
 					}
+					// a == b and a != b over the same operands are complementary
+					if bo, isBin := rv.(*ssa.BinOp); isBin && (bo.Op == token.EQL || bo.Op == token.NEQ) {
+						for k, kv := range truth {
+							ko, ok := k.(*ssa.BinOp)
+							if !ok || (ko.Op != token.EQL && ko.Op != token.NEQ) {
+								continue
+							}
+							sameOps := sameOperand(ko.X, bo.X) && sameOperand(ko.Y, bo.Y) || sameOperand(ko.X, bo.Y) && sameOperand(ko.Y, bo.X)
+							if !sameOps {
+								continue
+							}
+							if (ko.Op == bo.Op) != (kv == w) {
+								return // contradictory
+							}
+						}
+					}
 					nt = map[ssa.Value]bool{}
 					for k, v := range truth {
 						nt[k] = v
@@ -271,4 +287,20 @@ func (cp CFGPath) FindTruth(match func(cond ssa.Value) bool) (truth bool, found 
 		}
 	}
 	return false, false
+}
+
+// sameOperand: identical SSA value, or two constants of equal value.
+func sameOperand(a, b ssa.Value) bool {
+	if a == b {
+		return true
+	}
+	ca, okA := a.(*ssa.Const)
+	cb, okB := b.(*ssa.Const)
+	if !okA || !okB {
+		return false
+	}
+	if ca.Value == nil || cb.Value == nil {
+		return ca.Value == nil && cb.Value == nil
+	}
+	return ca.Value.ExactString() == cb.Value.ExactString()
 }
